@@ -164,6 +164,35 @@ def run_chunk(pid: str, tier: str, seeds: list[int],
     return out
 
 
+def run_fixed(pid: str, plans: list[dict[str, Any]],
+              timeout: float) -> list[dict[str, Any]]:
+    """Deterministic, enumerated part of a check (no PRNG involved)."""
+    faulthandler.dump_traceback_later(timeout, exit=True)
+    case = get_case(pid)
+    out = []
+    try:
+        for i, plan in enumerate(plans):
+            t0 = time.time()
+            try:
+                oc = case.evaluate(plan)
+                rec = oc.to_dict()
+                rec['plan'] = plan if (
+                    oc.violations or oc.harness_errors) else None
+                rec['plan_brief'] = case.brief(plan)
+            except Exception:  # noqa: BLE001
+                rec = Outcome().to_dict()
+                rec['harness_errors'] = [traceback.format_exc()[-2500:]]
+                rec['plan'] = None
+                rec['plan_brief'] = None
+            rec['seed'] = -1 - i
+            rec['wall'] = time.time() - t0
+            rec['violations'] = clean(rec['violations'])
+            out.append(rec)
+    finally:
+        faulthandler.cancel_dump_traceback_later()
+    return out
+
+
 def run_one(pid: str, plan: dict[str, Any], tapes: Any,
             timeout: float) -> dict[str, Any]:
     faulthandler.dump_traceback_later(timeout, exit=True)
@@ -319,6 +348,10 @@ def drive(pid: str, tier: str, seed: int, workers: int | None = None,
         # determinism pairs: the first chunk is run twice, in two processes
         futs = {pool.submit(run_chunk, pid, tier, c, case.chunk_timeout): c
                 for c in chunks}
+        fixed = case.fixed_plans(tier)
+        for i in range(0, len(fixed), 4):
+            futs[pool.submit(run_fixed, pid, fixed[i:i + 4],
+                             case.chunk_timeout)] = None
         twin = pool.submit(run_chunk, pid, tier, chunks[0],
                            case.chunk_timeout)
         first: Any = None
@@ -437,6 +470,7 @@ def drive(pid: str, tier: str, seed: int, workers: int | None = None,
             'rule': case.rule,
             'samples': samples,
             'exhaustive': bool(agg.exhaustive),
+            'enumerated_cases': len(case.fixed_plans(tier)),
             'simulated_runs': agg.n_sims,
             'simulated_runs_per_hour': round(agg.n_sims / wall * 3600),
             'cases_per_hour': round(evaluations / wall * 3600),
